@@ -14,13 +14,20 @@ histories for a failing input and reports the violation either way).
 namespace SaoVerif
 
 theorem C09_decision_skeleton_as_modelled :
-    Generated.Skel.x_sao_keeper_verify_go = Expected.Skel.x_sao_keeper_verify_go ∧
-    Generated.Skel.x_sao_keeper_msg_server_store_go = Expected.Skel.x_sao_keeper_msg_server_store_go ∧
-    Generated.Skel.x_sao_keeper_msg_server_terminate_go = Expected.Skel.x_sao_keeper_msg_server_terminate_go ∧
-    Generated.Skel.x_sao_keeper_msg_server_renew_go = Expected.Skel.x_sao_keeper_msg_server_renew_go ∧
-    Generated.Skel.x_sao_keeper_msg_server_updata_permission_go = Expected.Skel.x_sao_keeper_msg_server_updata_permission_go ∧
-    Generated.Skel.x_model_keeper_data_management_go = Expected.Skel.x_model_keeper_data_management_go ∧
-    Generated.Skel.x_sao_keeper_msg_server_complete_go = Expected.Skel.x_sao_keeper_msg_server_complete_go := by
+    [Generated.Skel.x_sao_keeper_verify_go,
+     Generated.Skel.x_sao_keeper_msg_server_store_go,
+     Generated.Skel.x_sao_keeper_msg_server_terminate_go,
+     Generated.Skel.x_sao_keeper_msg_server_renew_go,
+     Generated.Skel.x_sao_keeper_msg_server_updata_permission_go,
+     Generated.Skel.x_model_keeper_data_management_go,
+     Generated.Skel.x_sao_keeper_msg_server_complete_go] =
+    [Expected.Skel.x_sao_keeper_verify_go,
+     Expected.Skel.x_sao_keeper_msg_server_store_go,
+     Expected.Skel.x_sao_keeper_msg_server_terminate_go,
+     Expected.Skel.x_sao_keeper_msg_server_renew_go,
+     Expected.Skel.x_sao_keeper_msg_server_updata_permission_go,
+     Expected.Skel.x_model_keeper_data_management_go,
+     Expected.Skel.x_sao_keeper_msg_server_complete_go] := by
   decide +kernel
 
 end SaoVerif
